@@ -196,6 +196,27 @@ def run(F, R, tier):
         R.ob("payload-offset", lname, info.get("skip") == want, "payload iterates rawdata skipping %s (want %s)" % (info.get("skip"), want),
              F.loc(f, info["line"]))
 
+    # ---- (e2) where the payload / inner layer begins: off + the header length the length field delimits -----------------
+    # fixed-size headers: off + size; IPv4: off + max(4·IHL, 20) (RFC 791: IHL counts 32-bit words, minimum 5);
+    # TCP: off + max(4·DataOffset, 20) (RFC 9293).  The scaled quantity must be exactly the bits of that field —
+    # an unmasked shift (reserved bits leak in) or a clamp against another field moves the payload.
+    HDRLEN = {"ipv4": ("ihl", 4), "tcp": ("dataoff", 4)}
+    for lname, spec in L.LAYERS.items():
+        if not spec.get("pkt") or lname == "packet":
+            continue
+        form = C.offset_form(F, spec["decoder"], spec["pkt"] + "$")
+        size = ref["layers"][lname]["size"]
+        if lname in HDRLEN:
+            fld, unit = HDRLEN[lname]
+            kind, bits = L.parse_spec(ref["layers"][lname]["props"][fld])
+            want_bits = [("in", b, j) for b, j in reversed(bits)]      # LSB first
+            ok = bool(form) and form[0] == "scaled" and form[1] == size and form[2] == unit and form[3] == want_bits
+            R.ob("payload-start", lname, ok, "decoder stores offset = off + %s; reference: off + max(%d·%s, %d) with %s = %s"
+                 % (form[1:] if form else None, unit, fld, size, fld, ref["layers"][lname]["props"][fld]), F.loc(F.fn(spec["decoder"])))
+        else:
+            R.ob("payload-start", lname, bool(form) and form == ("const", size), "decoder stores offset = off + %s; reference header size %d"
+                 % (form[1:] if form else None, size), F.loc(F.fn(spec["decoder"])))
+
     # ---- (f) name tables ------------------------------------------------------------------------------------------------
     vs = F.enum_variants("code::prop::PacketPropType") or []
     discr = dict(vs)
